@@ -338,6 +338,25 @@ def run_real(sc, line_preempt=None, wall_s=20.0, max_steps=6000):
             setattr(app, n, f)
     else:
         app = websocket.WebSocketApp(url, **kw)
+    # (real runs only) per-fragment delivery: "cont_cb" = "init" (on_cont_message given to the constructor) | "late" (assigned
+    # afterwards) | "removed" (given to the constructor, set to None before the run)
+    if sc.get("cont_cb"):
+        def on_cont(app_, data, fin):
+            s.emit("cbtext", f"cb:on_cont_message:{arg_out(data)},{arg_out(fin)}")
+        if sc["cont_cb"] in ("init", "removed"):
+            app = websocket.WebSocketApp(url, on_cont_message=on_cont, **kw)
+            if sc["cont_cb"] == "removed":
+                app.on_cont_message = None
+        else:
+            app.on_cont_message = on_cont
+    if sc.get("header_seq"):
+        # (real runs only) a callable `header` whose value differs for every connection
+        seq = holder.setdefault("hseq", [0])
+
+        def header_fn():
+            seq[0] += 1
+            return [f"X-Conn-Seq: {seq[0]}"]
+        app.header = header_fn
     holder["app"] = app
     iv, to = sc.get("iv", 0), sc.get("to")
     rf = dict(ping_interval=(simsched.secs(iv) if iv else 0),
@@ -357,6 +376,12 @@ def run_real(sc, line_preempt=None, wall_s=20.0, max_steps=6000):
     go = [False]
 
     def main():
+        if sc.get("trace"):
+            # (real runs only) websocket.enableTrace(True): logging is not behaviour
+            import logging
+            import websocket._logging as _L0
+            holder["log_state"] = (_L0._logger.level, _L0._logger.handlers[:])
+            websocket.enableTrace(True, handler=logging.NullHandler())
         if "rc_global" in sc:
             websocket.setReconnect(simsched.secs(sc["rc_global"]))
         for ri, run in enumerate(sc["runs"]):
@@ -432,6 +457,12 @@ def run_real(sc, line_preempt=None, wall_s=20.0, max_steps=6000):
     finally:
         os.environ.update(saved_env)
         _A.RECONNECT = saved_rc
+        if sc.get("trace"):
+            import websocket._logging as _L
+            _L._traceEnabled = False
+            if "log_state" in holder:
+                _L._logger.setLevel(holder["log_state"][0])
+                _L._logger.handlers[:] = holder["log_state"][1]
     res = Real()
     items = []
     for t, ev in s.trace:
